@@ -289,6 +289,9 @@ def gen_reads(rng, case, nframes, thorough):
         if api == "iter" and rng.random() < 0.6:
             kv.append(f"stop={rng.randint(1, max(1, nframes))}")
         line = "read " + " ".join(kv)
+        if filt in ("cfg", "ctor", "post") and rng.random() < 0.06:
+            # an expression libpcap cannot compile: refused (constructor throws invalid_pcap_filter, set_filter returns false)
+            return line + " bad=1 f=" + rng.choice(["tcp port", "ip and and udp", "host 300.1.1.1", "((", "len >", "no such primitive"])
         if filt in ("cfg", "ctor", "post", "clr"):
             line += " f=" + flt
         return line
